@@ -1,4 +1,5 @@
 HOOK_COMMITS = ["43daa92"]
+FIX_COMMITS = ["ffd00ac", "4c348a4"]
 ENGINES = [
     {"name": "K", "path": "/verif/kani", "serves_properties": [],
      "kind_free_text": "Kani 0.68 / CBMC 6.11 bounded model checking of the compiled MIR of triomphe, monomorphised at harness-chosen instantiations; SAT back end CaDiCaL"},
@@ -12,7 +13,50 @@ NOT_APPLICABLE = {
 K_NOTE = ("Trusted: rustc (Kani's pinned nightly front end), Kani's MIR->goto translation and intrinsic/allocator models, CBMC + CaDiCaL, "
           "the stubs listed in the evidence file, the harness-side reference model. Sequential only; panics end the path (no unwinding); "
           "one monomorphic instantiation per harness; bounds as listed in the evidence file.")
+W_NOTE = ("Weak-memory half: the orderings and the event structure are re-extracted from the nightly MIR dump of /repo on every run "
+          "(release-like profile); RC11 axioms (SeqCst treated as AcqRel, sb U rf acyclic); hand models of ~25 std functions in wmm/mirsym.py; "
+          "bounded scenarios only; counterexamples are confirmed by cvc5 and an independent witness checker, not by a native run "
+          "(x86 cannot exhibit them).")
+def K(design_ref, technique, level, note_extra=""):
+    return {"engine": "K", "design_ref": design_ref, "technique": technique, "level": level, "note": K_NOTE + (" " + note_extra if note_extra else "")}
+def KW(design_ref, technique, level, note_extra=""):
+    return {"engine": "K+W", "design_ref": design_ref, "technique": technique, "level": level, "note": K_NOTE + " " + W_NOTE + (" " + note_extra if note_extra else "")}
 CHECKS = {
+    "C01": K("6/C01", "bounded model checking with Kani/CBMC (SAT): inductive one-operation step from an arbitrary valid state (symbolic 64-bit count), ghost allocator log and drop ledger",
+             "For every handle kind (Arc, OffsetArc, ArcUnion either arm, ThinArc, raw pointers, arc-swap pointers) and listed payload (sized Drop-tracked, over-aligned, header+slice, slice, str, dyn) the solver shows: from ANY count value, one clone / release / conversion / clone-then-two-releases changes the count by exactly the number of owners created or released, keeps the payload readable while owners remain, runs each destructor exactly once and returns the block exactly once (with its logged layout) exactly when the last owner goes. By induction on history length this covers every finite sequential history for the listed instantiations; slice lengths 0..3 enumerated."),
+    "C02": {"engine": "W", "design_ref": "5, 6/C02",
+            "technique": "symbolic execution of the MIR of clone/drop/count into event templates + RC11 axiomatic weak-memory encoding decided by z3 (SMT), cvc5 cross-check of counterexamples",
+            "level": "For each bounded scenario (2-3 threads quick, up to 4 thorough; programs over read/clone/drop incl. a handle passed to a spawned thread) one SMT query ranges over every reads-from map and modification order RC11 allows: UNSAT shows that in every execution each access to count or payload happens-before the release of the memory, no payload race exists, and exactly one destroy happens. The orderings come from the current MIR, so a weakened ordering is seen on the next run.",
+            "note": W_NOTE + " Other handle kinds are tied to Arc's clone/drop by a scan of every counter access in the MIR dump (an access outside the encoded functions makes the check inconclusive, exit 2)."},
+    "C03": KW("6/C03", "Kani/CBMC bounded model checking of every uniqueness-gated API from a symbolic count + RC11 SMT queries for the ordering of the granted write",
+              "Sequential half: for every 64-bit count value each gate (get_mut, get_unique, is_unique, try_unique, TryFrom, make_mut/make_unique in-place branch, deprecated write/as_mut_slice, the same through ThinArc::with_arc_mut) grants exactly when the count is one, and on decline the handle, count and payload are unchanged. Schedule half: in every RC11 execution of the bounded scenarios (poller thread vs readers/droppers) a granted write is ordered after every other thread's accesses."),
+    "C04": K("6/C04", "bounded model checking with Kani/CBMC (SAT): every count accessor from an arbitrary valid state, also inside borrow callbacks",
+             "From ANY count value c (= number of owners by the C01 induction) every accessor of every kind reports c; c+1 after one clone; c after a release of that clone; borrow_arc / with_arc / with_raw_offset_arc / with_arc_mut, comparisons, hashing, formatting, Deref, as_ptr and moves leave it at c, also when read inside the callback."),
+    "C05": K("6/C05", "bounded model checking with Kani/CBMC (SAT) with a logging allocator stub; layout arithmetic decided for a fully symbolic 64-bit slice length",
+             "For each cell of the shape matrix and each constructor the requested (size, align) equals the repr(C) reference, the payload sits at its reference offset and fits, and every release path returns exactly that block with exactly that size and alignment, once. Layout-only harnesses make the slice length a free 64-bit value: the request equals a u128 reference for every length or the only other outcome is the library's overflow panic."),
+    "C06": K("6/C06", "bounded model checking with Kani/CBMC (SAT): constructor result vs element-wise reference with identity-tracked elements and allocator log",
+             "For lengths 0..3, symbolic element values, Vec slack 0/1 and every honest size_hint regime, each constructor yields exactly the input contents in order, destroys nothing during construction, each input element is destroyed exactly once by the result, and the source container's storage is released; zero-sized elements are refused by a panic or delivered correctly."),
+    "C07": K("6/C07", "bounded model checking with Kani/CBMC (SAT): lying iterators over all (reported, actual) pairs, injected allocation failure, state asserted at callback entry",
+             "Lying iterators (reported/actual in 0..3, hints changing between calls) lead to the right value or a library panic, never an out-of-bounds write, a drop of an unwritten slot or a handle of the wrong length; a failed allocation always ends in handle_alloc_error; at the entry of user Clone code inside make_mut/make_unique/unwrap_or_clone/OffsetArc::make_mut the count, the caller's handle and the ledger are unchanged for every count. What happens after a panic starts to unwind is NOT modelled by Kani and is outside this claim.",
+             "Unwinding clean-up (DropGuard write-back, ManuallyDrop parking, leak of the half-built block, counts after catch_unwind) is outside the claim."),
+    "C08": KW("6/C08", "Kani/CBMC bounded model checking of make_mut/make_unique/OffsetArc::make_mut from a symbolic count + RC11 SMT queries for the write's ordering",
+              "Sequential half: for every count value, a sole owner keeps its allocation and is not cloned; otherwise exactly one Clone call, a fresh sole-owned block, the old block loses exactly one owner and keeps its value (also observed through a co-owner of each other kind and for a zero-sized payload). Schedule half: in every RC11 execution of the bounded scenarios the in-place write is ordered after the accesses of owners that have released."),
+    "C09": KW("6/C09", "Kani/CBMC bounded model checking of try_unwrap/try_unique/into_inner/unwrap_or_clone/TryFrom from a symbolic count + RC11 SMT queries for racing unwrappers",
+              "Sequential half: for every count value the value is moved out (undestroyed, block released once with its layout) exactly when the count is one; otherwise the same handle comes back with the count unchanged (unwrap_or_clone: one clone, one owner released). Schedule half: in every RC11 execution of threads racing try_unwrap / unwrap_or_clone / try_unique / drop the value is moved out or destroyed exactly once."),
+    "C10": K("6/C10", "bounded model checking with Kani/CBMC (SAT): thin vs fat views, symbolic recorded length for into_thin, with_arc_mut callbacks",
+             "For the listed (H,T) cells and lengths 0..3: recorded length = slice length for every safe way to obtain a ThinArc; thin deref, with_arc and the protected form expose the same header/elements at the same addresses as the fat Arc; thin<->fat conversions keep allocation and count; into_thin refuses every mismatching recorded length (64-bit symbolic); with_arc_mut that mutates / clones / replaces the Arc leaves the ThinArc consistent and the old allocation with exactly one owner fewer.",
+             "The state after the into_thin panic and after a panicking with_arc_mut callback is unwinding behaviour and outside the claim."),
+    "C11": K("6/C11", "bounded model checking with Kani/CBMC (SAT) over the shape matrix: pointer identities, round trips with a symbolic count, size_of facts",
+             "For each shape: as_ptr = into_raw = Deref address, stable across clone and move; heap_ptr = logged block; from_raw / from_raw_slice / from_raw_offset / ArcBorrow::from_ptr / dyn cast / arc-swap glue recover the same block, contents and (symbolic) count; OffsetArc and ArcBorrow bit patterns are the value's address; every handle is one word (two for slice/dyn) with the null niche.",
+             "ThinArc's opaque pointer is checked to be the block address (DESIGN C11). Address of an Arc<dyn> over payloads aligned above 8 is outside (Kani mis-models the dyn tail offset; natively correct)."),
+    "C12": K("6/C12", "bounded model checking with Kani/CBMC (SAT) over ordered payload pairs with a symbolic count",
+             "For each listed ordered pair and both constructors: every accessor reports the variant, the borrow exposes the original address, clone/drop move the right allocation's count by one and use the right destructor and logged layout at count one; one word wide with niche; unions of different variants never compare equal (also for equal values and the same allocation)."),
+    "C14": K("6/C14", "bounded model checking with Kani/CBMC (SAT): every comparison operator, recording Hasher and recording formatter on symbolic values",
+             "For all values of the listed domains (all u8 / f32 bit patterns incl. NaN, slices and strs of length 0..2, symbolic recorded lengths) and same-or-distinct allocations: == != < <= > >= partial_cmp cmp on handles equal those on the values (same-allocation equality excepted), are mutually consistent, equal handles feed a Hasher identically to the value, Debug/Display invoke the payload's impl exactly once on the payload with flags and result forwarded, Borrow/AsRef return the payload."),
+    "C15": K("6/C15", "bounded model checking with Kani/CBMC (SAT): symbolic subset of slots written, drop vs assume_init, deprecated writers under a symbolic count",
+             "For lengths 0..3 and every subset of written slots: dropping before assume_init runs no element destructor and exactly one header destructor and frees the block with its layout; assume_init* keeps allocation, contents and count and afterwards every element is destroyed exactly once; the deprecated writers return only for a sole owner (any 64-bit count)."),
+    "C17": K("6/C17", "bounded model checking with Kani/CBMC (SAT): parametric payload/serializer with symbolic results",
+             "Serialising Arc<P>/UniqueArc<P> invokes P's impl exactly once on the payload with the same serializer and forwards the result (Ok and Err, symbolic token); deserialising yields a sole owner of the value P's deserialiser produced in exactly one allocation, or passes the error through with no allocation left; also for a zero-sized payload. Parametric in P and the serializer, so per instantiation run."),
     "C16": {
         "engine": "K", "design_ref": "6/C16",
         "technique": "bounded model checking with Kani/CBMC (SAT): symbolic 64-bit starting count through every clone entry point, abort stubbed",
